@@ -560,12 +560,12 @@ SubprocessResult run_process(const vector<string>& cmd, const string* stdin_data
             p.remove(sp.stdin_fd(), true);
             write_fd_to_buffer.erase(pfd.first);
           }
-        } else if (bytes_written < 0) {
+        } else if ((bytes_written < 0) && (errno != EPIPE)) {
           if (errno == EAGAIN || errno == EINTR || errno == EWOULDBLOCK) {
             continue;
           }
           throw runtime_error("write failed: " + string_for_error(errno));
-        } else { // bytes_written == 0; usually means the pipe is broken
+        } else { // bytes_written == 0 or EPIPE; the process closed its stdin or exited
           p.remove(pfd.first, true);
           write_fd_to_buffer.erase(pfd.first);
         }
